@@ -133,14 +133,27 @@ const markerPrefix = "/verif-marker/"
 
 // Parse reads an strace log (-f -xx, large -s) and returns the operations that concern
 // dir, with markers in place.
-func Parse(tracePath, dir string) ([]Op, error) {
+func Parse(tracePath, dir string, more ...string) ([]Op, error) {
 	f, err := os.Open(tracePath)
 	if err != nil {
 		return nil, err
 	}
 	defer f.Close()
 	dir = filepath.Clean(dir)
-	under := func(p string) bool { return p == dir || strings.HasPrefix(p, dir+"/") }
+	// dir is the store; more names further directories whose files are followed too (a
+	// temporary directory elsewhere, from which files may be moved into the store)
+	roots := []string{dir}
+	for _, m := range more {
+		roots = append(roots, filepath.Clean(m))
+	}
+	under := func(p string) bool {
+		for _, r := range roots {
+			if p == r || strings.HasPrefix(p, r+"/") {
+				return true
+			}
+		}
+		return false
+	}
 	sc := bufio.NewScanner(f)
 	sc.Buffer(make([]byte, 1<<20), 1<<28)
 	pending := map[string]string{} // pid -> unfinished prefix
@@ -234,6 +247,9 @@ func Parse(tracePath, dir string) ([]Op, error) {
 				ops = append(ops, Op{Kind: "pwrite", Fd: fd, Data: data, Off: off, Line: n})
 			}
 		case "writev", "pwritev", "pwritev2", "sendfile", "copy_file_range", "fallocate", "splice":
+			if failed {
+				continue // a call that failed changed nothing
+			}
 			fd, _ := strconv.Atoi(args[0])
 			if name == "sendfile" || name == "copy_file_range" || name == "splice" {
 				// destination descriptor position varies; be conservative
@@ -543,7 +559,7 @@ func (f *FS) EqualDir(dir string) error {
 		return err
 	}
 	for p := range want {
-		if !seen[p] {
+		if !seen[p] && (p == dir || strings.HasPrefix(p, filepath.Clean(dir)+"/")) {
 			return fmt.Errorf("replayed tree has %s, the real directory does not", p)
 		}
 	}
